@@ -1163,6 +1163,30 @@ func (w *world) exec1(line string) {
 		}
 		fmt.Fprintln(w.ann, "skipline")
 		fmt.Fprintln(w.out, "skipline")
+	case "fscrlf":
+		// fscrlf <all|odd|even> <path>: what a checkout with core.autocrlf (or an editor) does to a
+		// snapshot file: line feeds become CR LF - all of them, or every second one starting with the
+		// first (odd) / the second (even): mixed endings.  No-op when the file does not exist.  The
+		// model computes the same conversion from ITS file contents (lean/GoSnaps/DriverX.lean).
+		p := w.abs(unhx(tok[2]))
+		if b, err := os.ReadFile(p); err == nil {
+			o := make([]byte, 0, len(b)+len(b)/8)
+			turn := tok[1] == "odd"
+			for _, c := range b {
+				if c == '\n' {
+					if tok[1] == "all" || turn {
+						o = append(o, '\r')
+					}
+					turn = !turn
+				}
+				o = append(o, c)
+			}
+			if err := os.WriteFile(p, o, 0o644); err != nil {
+				panic(err)
+			}
+		}
+		fmt.Fprintf(w.ann, "fscrlf %s %s\n", tok[1], hx(p))
+		fmt.Fprintln(w.out, "fscrlf ok")
 	case "fsrm":
 		p := w.abs(unhx(tok[1]))
 		os.Remove(p)
